@@ -27,13 +27,13 @@ func init() {
 	factGens = append(factGens, genAtomicFacts, genAuthFacts)
 }
 
-func nodeText(fset *token.FileSet, n ast.Node) string {
+func xbNodeText(fset *token.FileSet, n ast.Node) string {
 	var b bytes.Buffer
 	_ = printer.Fprint(&b, fset, n)
 	return strings.Join(strings.Fields(b.String()), " ")
 }
 
-func parseGo(repo, rel string) (*token.FileSet, *ast.File, error) {
+func xbParseGo(repo, rel string) (*token.FileSet, *ast.File, error) {
 	fset := token.NewFileSet()
 	f, err := parser.ParseFile(fset, filepath.Join(repo, rel), nil, 0)
 	return fset, f, err
@@ -56,7 +56,7 @@ func xbFindFunc(f *ast.File, name, recv string) *ast.FuncDecl {
 	return nil
 }
 
-func calleeName(c *ast.CallExpr) string {
+func xbCalleeName(c *ast.CallExpr) string {
 	switch t := c.Fun.(type) {
 	case *ast.Ident:
 		return t.Name
@@ -67,7 +67,7 @@ func calleeName(c *ast.CallExpr) string {
 }
 
 // callSeq lists callee names of all calls inside the function body, ordered by position.
-func callSeq(fd *ast.FuncDecl) []string {
+func xbCallSeq(fd *ast.FuncDecl) []string {
 	type pc struct {
 		pos  token.Pos
 		name string
@@ -75,7 +75,7 @@ func callSeq(fd *ast.FuncDecl) []string {
 	var cs []pc
 	ast.Inspect(fd.Body, func(n ast.Node) bool {
 		if c, ok := n.(*ast.CallExpr); ok {
-			if nm := calleeName(c); nm != "" {
+			if nm := xbCalleeName(c); nm != "" {
 				// position of the callee name itself (so that a.b(c.d()) lists b before d, and
 				// x := f(); g(x) lists f before g)
 				p := c.Lparen
@@ -92,7 +92,7 @@ func callSeq(fd *ast.FuncDecl) []string {
 	return out
 }
 
-func leanPairList(xs [][2]string, second string) string {
+func xbLeanPairList(xs [][2]string, second string) string {
 	q := make([]string, len(xs))
 	for i, x := range xs {
 		if second == "bool" {
@@ -127,7 +127,7 @@ func genAtomicFacts(repo string, emit func(name, leanDef string, err error)) {
 				}
 				n := 0
 				ast.Inspect(fd.Body, func(nd ast.Node) bool {
-					if c, ok := nd.(*ast.CallExpr); ok && calleeName(c) == "CacheContext" {
+					if c, ok := nd.(*ast.CallExpr); ok && xbCalleeName(c) == "CacheContext" {
 						n++
 					}
 					return true
@@ -146,7 +146,7 @@ func genAtomicFacts(repo string, emit func(name, leanDef string, err error)) {
 	var sw [][2]string
 	var serr error
 	for _, pc := range [][2]string{{"assets", "precompiles/assets/assets.go"}, {"delegation", "precompiles/delegation/delegation.go"}, {"avs", "precompiles/avs/avs.go"}, {"reward", "precompiles/reward/reward.go"}} {
-		_, f, err := parseGo(repo, pc[1])
+		_, f, err := xbParseGo(repo, pc[1])
 		if err != nil {
 			serr = err
 			continue
@@ -168,7 +168,7 @@ func genAtomicFacts(repo string, emit func(name, leanDef string, err error)) {
 					return true
 				}
 				ast.Inspect(ifs.Body, func(x ast.Node) bool {
-					if c, ok := x.(*ast.CallExpr); ok && calleeName(c) == "Pack" && len(c.Args) > 0 && exprText(c.Args[0]) == "false" {
+					if c, ok := x.(*ast.CallExpr); ok && xbCalleeName(c) == "Pack" && len(c.Args) > 0 && exprText(c.Args[0]) == "false" {
 						found = true
 					}
 					return true
@@ -225,7 +225,7 @@ func genAtomicFacts(repo string, emit func(name, leanDef string, err error)) {
 		}
 	}
 	sort.Slice(sw, func(i, j int) bool { return sw[i][0] < sw[j][0] })
-	emit("precompileRunSwallow", "/-- precompiles/*/…: Run — per switch case: the method's error is replaced by Pack(false, …) -/\ndef precompileRunSwallow : List (String × Bool) := "+leanPairList(sw, "bool"), serr)
+	emit("precompileRunSwallow", "/-- precompiles/*/…: Run — per switch case: the method's error is replaced by Pack(false, …) -/\ndef precompileRunSwallow : List (String × Bool) := "+xbLeanPairList(sw, "bool"), serr)
 
 	// ---- call sequences of the modelled functions
 	for _, cs := range [][4]string{
@@ -244,7 +244,7 @@ func genAtomicFacts(repo string, emit func(name, leanDef string, err error)) {
 		{"callSeqMsgOptIntoAVS", "x/operator/keeper/msg_server.go", "OptIntoAVS", "MsgServerImpl"},
 		{"callSeqMsgDelegate", "x/delegation/keeper/msg_server.go", "DelegateAssetToOperator", "Keeper"},
 	} {
-		_, f, err := parseGo(repo, cs[1])
+		_, f, err := xbParseGo(repo, cs[1])
 		if err != nil {
 			emit(cs[0], "", err)
 			continue
@@ -254,7 +254,7 @@ func genAtomicFacts(repo string, emit func(name, leanDef string, err error)) {
 			emit(cs[0], "", fmt.Errorf("%s: func %s not found", cs[1], cs[2]))
 			continue
 		}
-		emit(cs[0], fmt.Sprintf("/-- %s: %s — callee names in source order -/\ndef %s : List String := %s", cs[1], cs[2], cs[0], leanStrList(callSeq(fd))), nil)
+		emit(cs[0], fmt.Sprintf("/-- %s: %s — callee names in source order -/\ndef %s : List String := %s", cs[1], cs[2], cs[0], leanStrList(xbCallSeq(fd))), nil)
 	}
 }
 
@@ -269,7 +269,7 @@ func genAuthFacts(repo string, emit func(name, leanDef string, err error)) {
 		{"precompiles/delegation/tx.go", "AssociateOperatorWithStaker", "delegation"}, {"precompiles/delegation/tx.go", "DissociateOperatorFromStaker", "delegation"},
 		{"precompiles/reward/methods.go", "Reward", "reward"},
 	} {
-		fset, f, err := parseGo(repo, m[0])
+		fset, f, err := xbParseGo(repo, m[0])
 		if err != nil {
 			gerr = err
 			continue
@@ -281,25 +281,25 @@ func genAuthFacts(repo string, emit func(name, leanDef string, err error)) {
 		}
 		first := false
 		if len(fd.Body.List) >= 2 {
-			s0 := nodeText(fset, fd.Body.List[0])
-			s1 := nodeText(fset, fd.Body.List[1])
+			s0 := xbNodeText(fset, fd.Body.List[0])
+			s1 := xbNodeText(fset, fd.Body.List[1])
 			first = s0 == "err := p.assetsKeeper.CheckExocoreGatewayAddr(ctx, contract.CallerAddress)" &&
 				strings.HasPrefix(s1, "if err != nil { return nil,")
 		}
 		gw = append(gw, [2]string{m[2] + "." + m[1], fmt.Sprint(first)})
 	}
-	emit("gatewayCheckFirst", "/-- precompile tx methods: `err := p.assetsKeeper.CheckExocoreGatewayAddr(ctx, contract.CallerAddress); if err != nil { return nil, … }` are the first two statements -/\ndef gatewayCheckFirst : List (String × Bool) := "+leanPairList(gw, "bool"), gerr)
+	emit("gatewayCheckFirst", "/-- precompile tx methods: `err := p.assetsKeeper.CheckExocoreGatewayAddr(ctx, contract.CallerAddress); if err != nil { return nil, … }` are the first two statements -/\ndef gatewayCheckFirst : List (String × Bool) := "+xbLeanPairList(gw, "bool"), gerr)
 
 	// CheckExocoreGatewayAddr itself: compares its argument with the stored parameter
 	{
-		fset, f, err := parseGo(repo, "x/assets/keeper/params.go")
+		fset, f, err := xbParseGo(repo, "x/assets/keeper/params.go")
 		var cmp string
 		if err == nil {
 			if fd := xbFindFunc(f, "CheckExocoreGatewayAddr", "Keeper"); fd != nil {
 				ast.Inspect(fd.Body, func(n ast.Node) bool {
 					if ifs, ok := n.(*ast.IfStmt); ok && cmp == "" {
 						if be, ok := ifs.Cond.(*ast.BinaryExpr); ok && (exprText(be.X) == "addr" || exprText(be.Y) == "addr") {
-							cmp = nodeText(fset, be)
+							cmp = xbNodeText(fset, be)
 						}
 					}
 					return true
@@ -313,7 +313,7 @@ func genAuthFacts(repo string, emit func(name, leanDef string, err error)) {
 
 	// ---- AVS precompile: where each identity field comes from
 	{
-		fset, f, err := parseGo(repo, "precompiles/avs/tx.go")
+		fset, f, err := xbParseGo(repo, "precompiles/avs/tx.go")
 		var reads [][2]string
 		origin := true
 		if err == nil {
@@ -340,7 +340,7 @@ func genAuthFacts(repo string, emit func(name, leanDef string, err error)) {
 					if fld != "AvsAddress" && fld != "OperatorAddress" && fld != "CallerAddress" && fld != "Operator" && fld != "TaskContractAddress" {
 						return true
 					}
-					rhs := nodeText(fset, as.Rhs[0])
+					rhs := xbNodeText(fset, as.Rhs[0])
 					src := "other:" + rhs
 					switch {
 					case strings.Contains(rhs, "contract.CallerAddress"):
@@ -358,7 +358,7 @@ func genAuthFacts(repo string, emit func(name, leanDef string, err error)) {
 			}
 		}
 		// the parse helpers (types.go) assign CallerAddress for RegisterAVS / UpdateAVS / CreateAVSTask
-		fset2, f2, err2 := parseGo(repo, "precompiles/avs/types.go")
+		fset2, f2, err2 := xbParseGo(repo, "precompiles/avs/types.go")
 		if err == nil {
 			err = err2
 		}
@@ -378,7 +378,7 @@ func genAuthFacts(repo string, emit func(name, leanDef string, err error)) {
 					if !ok || sel.Sel.Name != "CallerAddress" {
 						return true
 					}
-					rhs := nodeText(fset2, as.Rhs[0])
+					rhs := xbNodeText(fset2, as.Rhs[0])
 					src := "other:" + rhs
 					if strings.Contains(rhs, "callerAddress") {
 						src = "args[0]"
@@ -388,14 +388,14 @@ func genAuthFacts(repo string, emit func(name, leanDef string, err error)) {
 				})
 			}
 		}
-		emit("avsAuthReads", "/-- precompiles/avs/{tx,types}.go: which value each identity field is read from -/\ndef avsAuthReads : List (String × String) := "+leanPairList(reads, "str"), err)
+		emit("avsAuthReads", "/-- precompiles/avs/{tx,types}.go: which value each identity field is read from -/\ndef avsAuthReads : List (String × String) := "+xbLeanPairList(reads, "str"), err)
 		emit("avsOriginIgnored", fmt.Sprintf("/-- precompiles/avs/tx.go: the origin parameter of every tx method is `_` -/\ndef avsOriginIgnored : Bool := %v", origin), err)
 	}
 
 	// ---- oracle branch of SigVerificationDecorator
 	{
-		_, f, err := parseGo(repo, "app/ante/cosmos/sigverify.go")
-		discarded, usedSomewhere, branch := false, false, false
+		_, f, err := xbParseGo(repo, "app/ante/cosmos/sigverify.go")
+		discarded, checked, branch := false, false, false
 		if err == nil {
 			fd := xbFindFunc(f, "AnteHandle", "SigVerificationDecorator")
 			if fd == nil {
@@ -409,22 +409,25 @@ func genAuthFacts(repo string, emit func(name, leanDef string, err error)) {
 					branch = true
 					ast.Inspect(ifs.Body, func(n ast.Node) bool {
 						switch t := n.(type) {
-						case *ast.ExprStmt:
-							if c, ok := t.X.(*ast.CallExpr); ok && calleeName(c) == "VerifySignature" {
+						case *ast.ExprStmt: // the call stands as a statement of its own: result dropped
+							if c, ok := t.X.(*ast.CallExpr); ok && xbCalleeName(c) == "VerifySignature" {
 								discarded = true
 							}
-						case *ast.IfStmt, *ast.AssignStmt:
-							ast.Inspect(t, func(x ast.Node) bool {
-								if c, ok := x.(*ast.CallExpr); ok && calleeName(c) == "VerifySignature" {
-									if _, isIf := t.(*ast.IfStmt); isIf {
-										// only the condition / init of the if count as a use
-										usedSomewhere = usedSomewhere || true
-									} else {
-										usedSomewhere = true
-									}
+						case *ast.IfStmt: // the call is (part of) a condition whose body returns an error
+							inCond := false
+							ast.Inspect(t.Cond, func(x ast.Node) bool {
+								if c, ok := x.(*ast.CallExpr); ok && xbCalleeName(c) == "VerifySignature" {
+									inCond = true
 								}
 								return true
 							})
+							if inCond {
+								for _, bs := range t.Body.List {
+									if rs, ok := bs.(*ast.ReturnStmt); ok && len(rs.Results) == 2 && exprText(rs.Results[1]) != "nil" {
+										checked = true
+									}
+								}
+							}
 						}
 						return true
 					})
@@ -434,6 +437,7 @@ func genAuthFacts(repo string, emit func(name, leanDef string, err error)) {
 				}
 			}
 		}
+		emit("oracleSigResultChecked", fmt.Sprintf("/-- app/ante/cosmos/sigverify.go: SigVerificationDecorator.AnteHandle, oracle branch: `VerifySignature(…)` occurs in the condition of an `if` whose body returns a non-nil error -/\ndef oracleSigResultChecked : Bool := %v", checked), err)
 		emit("oracleSigResultDiscarded", fmt.Sprintf("/-- app/ante/cosmos/sigverify.go: SigVerificationDecorator.AnteHandle, oracle branch: `pubKey.VerifySignature(…)` stands as a statement of its own (its boolean result is dropped) -/\ndef oracleSigResultDiscarded : Bool := %v", discarded), err)
 	}
 
@@ -446,7 +450,7 @@ func genAuthFacts(repo string, emit func(name, leanDef string, err error)) {
 			{"exomint", "x/exomint/keeper/msg_server.go", "UpdateParams"}, {"feedistribution", "x/feedistribution/keeper/msg_update_params.go", "UpdateParams"},
 			{"assets", "x/assets/keeper/msg_server.go", "UpdateParams"},
 		} {
-			fset, f, err := parseGo(repo, m[1])
+			fset, f, err := xbParseGo(repo, m[1])
 			if err != nil {
 				uerr = err
 				continue
@@ -459,7 +463,7 @@ func genAuthFacts(repo string, emit func(name, leanDef string, err error)) {
 			cond := ""
 			for _, st := range fd.Body.List {
 				if ifs, ok := st.(*ast.IfStmt); ok {
-					c := nodeText(fset, ifs.Cond)
+					c := xbNodeText(fset, ifs.Cond)
 					if strings.Contains(c, "uthority") {
 						cond = c
 						break
@@ -472,22 +476,22 @@ func genAuthFacts(repo string, emit func(name, leanDef string, err error)) {
 			}
 			ups = append(ups, [2]string{m[0], cond})
 		}
-		emit("updateParamsAuthority", "/-- UpdateParams handlers: the condition under which the request is rejected as unauthorised -/\ndef updateParamsAuthority : List (String × String) := "+leanPairList(ups, "str"), uerr)
+		emit("updateParamsAuthority", "/-- UpdateParams handlers: the condition under which the request is rejected as unauthorised -/\ndef updateParamsAuthority : List (String × String) := "+xbLeanPairList(ups, "str"), uerr)
 	}
 	// IsMainnet
 	{
-		fset, f, err := parseGo(repo, "utils/utils.go")
+		fset, f, err := xbParseGo(repo, "utils/utils.go")
 		body := ""
 		mainnet := ""
 		if err == nil {
 			if fd := xbFindFunc(f, "IsMainnet", ""); fd != nil && len(fd.Body.List) == 1 {
-				body = nodeText(fset, fd.Body.List[0])
+				body = xbNodeText(fset, fd.Body.List[0])
 			} else {
 				err = fmt.Errorf("IsMainnet not found or not a single statement")
 			}
 			ast.Inspect(f, func(n ast.Node) bool {
 				if vs, ok := n.(*ast.ValueSpec); ok && len(vs.Names) == 1 && vs.Names[0].Name == "MainnetChainID" && len(vs.Values) == 1 {
-					mainnet = strings.Trim(nodeText(fset, vs.Values[0]), "\"")
+					mainnet = strings.Trim(xbNodeText(fset, vs.Values[0]), "\"")
 				}
 				return true
 			})
